@@ -1,19 +1,150 @@
 package main
 
 import (
+	"encoding/json"
+	"flag"
 	"fmt"
-	"golang.org/x/tools/go/packages"
-	"golang.org/x/tools/go/ssa"
-	"golang.org/x/tools/go/ssa/ssautil"
+	"os"
+	"runtime"
+	"strings"
+	"time"
+
+	"gjv/eng"
 )
 
 func main() {
-	cfg := &packages.Config{Mode: packages.LoadAllSyntax, Dir: "/repo"}
-	pkgs, err := packages.Load(cfg, "./...")
-	if err != nil {
-		panic(err)
+	if len(os.Args) < 2 {
+		fmt.Fprintln(os.Stderr, "usage: gjv run|check|replay|selftest ...")
+		os.Exit(2)
 	}
-	prog, _ := ssautil.AllPackages(pkgs, ssa.InstantiateGenerics)
-	prog.Build()
-	fmt.Println(len(prog.AllPackages()))
+	switch os.Args[1] {
+	case "run":
+		os.Exit(cmdRun(os.Args[2:]))
+	case "check":
+		os.Exit(cmdCheck(os.Args[2:]))
+	case "replay":
+		os.Exit(cmdReplay(os.Args[2:]))
+	default:
+		fmt.Fprintln(os.Stderr, "unknown command", os.Args[1])
+		os.Exit(2)
+	}
 }
+
+// gjv run -pkg gjvharness/t0 -entry HarnessAbs [-P n] [-T n] ...
+func cmdRun(args []string) int {
+	fs := flag.NewFlagSet("run", flag.ExitOnError)
+	pkg := fs.String("pkg", "", "harness package")
+	entry := fs.String("entry", "", "harness function")
+	P := fs.Int("P", 0, "pre-emption bound")
+	T := fs.Int("T", 0, "timer firings")
+	steps := fs.Int("steps", 2000000, "per-path step budget")
+	paths := fs.Int("paths", 0, "max paths (0 = unlimited)")
+	workers := fs.Int("workers", runtime.NumCPU(), "workers")
+	solver := fs.String("solver", "z3", "z3|z3-new|cvc5")
+	deadline := fs.Int("deadline", 0, "wall seconds (0 = none)")
+	bounds := fs.String("bounds", "", "k=v,k=v harness bounds")
+	verbose := fs.Bool("v", false, "verbose")
+	kernels := fs.String("kernels", "", "virtual=real,... overlay files placed in /repo")
+	fs.Parse(args)
+	cfg := eng.LoadConfig{RepoDir: repoDir(), HarnessDir: harnessDir(), Patterns: []string{*pkg}, Kernels: parseKV(*kernels)}
+	t0 := time.Now()
+	p, err := eng.Load(cfg)
+	if err != nil {
+		fmt.Println("LOAD ERROR:", err)
+		return 2
+	}
+	fmt.Printf("loaded in %.1fs\n", time.Since(t0).Seconds())
+	fn := p.FuncByName(*pkg, *entry)
+	if fn == nil {
+		fmt.Println("no such harness:", *pkg, *entry)
+		return 2
+	}
+	ex := &eng.Explorer{P: p, Entry: fn, Solver: *solver, Workers: *workers,
+		B: eng.Bounds{Preempt: *P, Timers: *T, MaxSteps: *steps, MaxPaths: *paths, SolverMs: 20000, DeadlineS: *deadline, Params: parseKVInt(*bounds)}}
+	t1 := time.Now()
+	if err := ex.Explore(); err != nil {
+		fmt.Println("EXPLORE ERROR:", err)
+		return 2
+	}
+	fmt.Printf("paths=%d infeasible=%d decisions=%d steps=%d asserts=%d (smt %d) violations=%d inconclusive=%d unknowns=%d budget=%v in %.1fs\n",
+		ex.Paths, ex.Infeasible, ex.Decisions, ex.Steps, ex.Asserts, ex.AssertsSMT, len(ex.Violations), len(ex.Inconclusive), ex.Unknowns, ex.Budget, time.Since(t1).Seconds())
+	for k, s := range ex.SolverStats {
+		fmt.Printf("solver %s: %d queries (%d sat, %d unsat, %d unknown) %.2fs\n", k, s.Queries, s.Sat, s.Unsat, s.Unknown, s.Seconds)
+	}
+	fmt.Println("reached:", ex.Reached)
+	seen := map[string]int{}
+	for _, v := range ex.Violations {
+		seen[v.Class]++
+		if seen[v.Class] > 2 && !*verbose {
+			continue
+		}
+		b, _ := json.Marshal(v.Inputs)
+		fmt.Printf("VIOLATION class=%s inputs=%s\n  at %s\n", v.Class, b, v.Msg)
+		if *verbose {
+			for _, s := range v.Sched {
+				fmt.Println("    ", s)
+			}
+		}
+	}
+	for c, n := range seen {
+		fmt.Printf("class %s: %d paths\n", c, n)
+	}
+	inc := map[string]int{}
+	for _, s := range ex.Inconclusive {
+		inc[s]++
+	}
+	for s, n := range inc {
+		fmt.Printf("INCONCLUSIVE x%d: %s\n", n, s)
+	}
+	if *verbose {
+		for _, s := range ex.Samples {
+			b, _ := json.Marshal(s)
+			fmt.Println("sample:", string(b))
+		}
+		fmt.Println("functions:", strings.Join(ex.FnList(), "\n  "))
+	}
+	if len(ex.Violations) > 0 {
+		return 1
+	}
+	if len(ex.Inconclusive) > 0 || ex.Budget {
+		return 2
+	}
+	return 0
+}
+
+func repoDir() string {
+	if d := os.Getenv("VERIF_REPO"); d != "" {
+		return d
+	}
+	return "/repo"
+}
+
+func harnessDir() string {
+	if d := os.Getenv("VERIF_HARNESS"); d != "" {
+		return d
+	}
+	return "/verif/harness"
+}
+
+func parseKV(s string) map[string]string {
+	out := map[string]string{}
+	for _, kv := range strings.Split(s, ",") {
+		if i := strings.IndexByte(kv, '='); i > 0 {
+			out[kv[:i]] = kv[i+1:]
+		}
+	}
+	return out
+}
+
+func parseKVInt(s string) map[string]int {
+	out := map[string]int{}
+	for k, v := range parseKV(s) {
+		var n int
+		fmt.Sscan(v, &n)
+		out[k] = n
+	}
+	return out
+}
+
+func cmdCheck(args []string) int  { fmt.Println("not yet"); return 2 }
+func cmdReplay(args []string) int { fmt.Println("not yet"); return 2 }
